@@ -116,6 +116,16 @@ Theorem C14_registry_degrades : forall k s ty m internal,
 Proof. exact registry_degrades. Qed.
 Print Assumptions C14_registry_degrades.
 
+(* the tables regenerated from the Go sources agree with the kinds the monitor pins, and the
+   first matching encode rule is always the nearest registered sentinel on the Wrap chain *)
+Theorem C14_tables_pinned :
+  parents = kind_parents /\
+  forallb (fun k => existsb (N.eqb k) reg_kinds) (map fst enc_rules) = true /\
+  forallb (fun k => existsb (N.eqb k) (map fst enc_rules)) reg_kinds = true /\
+  forall k, agree_at k = true.
+Proof. exact (conj parents_pinned (conj (proj1 registered_pinned) (conj (proj2 registered_pinned) agree))). Qed.
+Print Assumptions C14_tables_pinned.
+
 Theorem C14_providers_disjoint :
   forallb (fun ty => Nat.eqb (hits ty) 1) (flat_map prov_types providers) = true.
 Proof. exact providers_disjoint. Qed.
